@@ -744,7 +744,7 @@ def _index_by_sign(g, p, ats):
             xs = ir.unwrap(x)
             if isinstance(xs, dict) and xs.get("k") == "decl":
                 for v in xs.get("vars", []):
-                    if v.get("init") is not None and ("int" in (v.get("type") or "") or "size_t" in (v.get("type") or "") or "long" in (v.get("type") or "")):
+                    if v.get("init") is not None and re.search(r"int|size_t|long|ptrdiff_t|size_type|difference_type|short", v.get("type") or ""):
                         env[v["name"]] = ev(v["init"], env)
             for eff, lv, n in tree_effects(x, into_sc=False):
                 if eff in ("write", "maybe_write") and lv is not None:
